@@ -121,7 +121,11 @@ impl Grammar {
                         items.push(Item::PopO);
                     } else if w == "⏎" {
                         items.push(Item::HardNl);
-                    } else if w.starts_with('{') && w.ends_with('}') && w.len() > 2 && w != "{}" {
+                    } else if w.starts_with('{')
+                        && w.ends_with('}')
+                        && w.len() > 2
+                        && w[1..w.len() - 1].chars().all(|c| c.is_ascii_alphabetic() || c == '@')
+                    {
                         let inner = &w[1..w.len() - 1];
                         let (name, marks) = match inner.split_once('@') {
                             Some((n, m)) => (n, parse_marks(m)),
